@@ -24,6 +24,11 @@ CHECKS = {
             'points', 'DESIGN.md 2/C03'),
     'C04': (EX[0], EX[1], 'all functions x all partial assignments x all variable maps x single '
             'replacements from F(3) x tuples from family G', 'DESIGN.md 2/C04'),
+    'C05': (EX[0], 'bounded-exhaustive enumeration of programs (formulas) of the documented grammar, each '
+            'parsed by the real add_expr and compared with an independent precedence-climbing evaluator',
+            'every ordered pair of binary spellings x 8 shapes, chains, binders at every position, ite, '
+            'constants, @n of both signs, comments at every token boundary, whitespace variants, '
+            'identifier forms, to_expr round trip for all of F(3)', 'DESIGN.md 2/C05'),
     'C06': (MC[0], MC[1], 'every history over the stated alphabets up to the completed depth; '
             'exact-count / canonicity / denotation invariants in every state', 'DESIGN.md 2/C06'),
     'C07': (MC[0], MC[1] + ' + exhaustive sweeps over held sets, orders, targets and pairings',
